@@ -29,6 +29,13 @@ var indSpecs = []indSpec{
 	{name: "StochasticRsi2", nper: 2, nin: 1, heavy: true, c15: true, nonlin: true, qDn: 1, tDn: 2,
 		cfgQ: [][3]int{{2, 2, 0}, {3, 2, 0}}, cfgT: [][3]int{{2, 2, 0}, {3, 2, 0}, {2, 3, 0}}},
 	{name: "KeltnerChannel2", nper: 2, nin: 3, c15: true, cfgQ: [][3]int{{3, 1, 0}, {1, 3, 0}}, cfgT: [][3]int{{3, 1, 0}, {1, 3, 0}, {2, 3, 0}, {4, 2, 0}, {2, 4, 0}}},
+	// configured through the exported Period field after the default constructor
+	{name: "SmaF", nper: 1, nin: 1, cfgQ: [][3]int{{2, 0, 0}, {3, 0, 0}}}, {name: "EmaF", nper: 1, nin: 1, cfgQ: [][3]int{{2, 0, 0}, {3, 0, 0}}},
+	{name: "CciF", nper: 1, nin: 3, minP: 2, cfgQ: [][3]int{{2, 0, 0}, {3, 0, 0}}}, {name: "MovingMaxF", nper: 1, nin: 1, heavy: true, c15: true, cfgQ: [][3]int{{2, 0, 0}}},
+	{name: "MovingMinF", nper: 1, nin: 1, heavy: true, c15: true, cfgQ: [][3]int{{2, 0, 0}}}, {name: "MovingSumF", nper: 1, nin: 1, cfgQ: [][3]int{{2, 0, 0}, {3, 0, 0}}},
+	{name: "RmaF", nper: 1, nin: 1, cfgQ: [][3]int{{2, 0, 0}, {3, 0, 0}}}, {name: "SmmaF", nper: 1, nin: 1, cfgQ: [][3]int{{2, 0, 0}, {3, 0, 0}}},
+	{name: "BollingerBandsF", nper: 1, nin: 1, c15: true, nonlin: true, qP: 2, qDn: 1, tP: 3, tDn: 2, cfgQ: [][3]int{{2, 0, 0}}},
+	{name: "MovingStdF", nper: 1, nin: 1, c15: true, nonlin: true, qP: 2, qDn: 2, tP: 3, tDn: 2, cfgQ: [][3]int{{2, 0, 0}}},
 	{name: "EmaS", nper: 1, nin: 1}, {name: "EnvelopeSmaP", nper: 1, nin: 1, c15: true}, {name: "NviI", nper: 0, nin: 2},
 	// trend A
 	{name: "Apo", dflt: [3]int{14, 30, 0}, nper: 2, nin: 1, ordered: true}, {name: "Aroon", nper: 1, nin: 2, heavy: true, c15: true, depMinP: 2, qDn: 3, tDn: 4}, {name: "Bop", nper: 0, nin: 4, c15: true},
